@@ -11,6 +11,7 @@ import XMT.DecodeSafe
 import XMT.DecodeDns
 import XMT.DecodeStream
 import XMT.FragHostile
+import XMT.PacketAlloc
 
 namespace XMT.Props.C04
 open XMT XMT.Decode
@@ -189,13 +190,61 @@ theorem streamBytes_alloc_partial (s : Codec.Stream) : Stream.bytesAlloc s ≤ F
 
 -- OPEN: streamBytes_alloc : ∀ s, Stream.bytesAlloc s ≤ K * s.flatten.length + B — false on the
 -- current code (witness above); recorded as known finding `alloc:data.reader.Bytes`.
--- OPEN: packetUnmarshal_total_alloc (top-level wire form `Packet.Unmarshal`, incl. the negative
--- `Limit` for announced lengths ≥ 2^63): outcome model in XMT/Packet.lean (C01); no allocation /
--- totality theorem over arbitrary bytes yet — oracle only (ops `wire`, `rp`, `handle`).
 -- OPEN: receive / processMultiple / conn.resolve dispatch arms: only the unpack loop
 -- (`unpackLoop_total_alloc`) and the channel-or-close decision (`handleSwitch_total`) are proved; the
 -- arms run on the real code against a fake connServer/connHost (ops `recv`, `procmulti`, `resolve`).
 -- OPEN: B64 transform `Read` and CBK `Read` framing — oracle only (ops `b64`, `cbk`, `rp`, `handle`).
+
+/-! ### the top-level wire form `Packet.Unmarshal` on arbitrary bytes -/
+
+/-- **Whatever the header announces, a decoded packet never holds more than was consumed from the
+wire.** For EVERY piece stream `s` (any bytes, any piece sizes) on which the outcome model of
+`Packet.Unmarshal` (XMT/Packet.lean — the model C01 round-trips and the differential run drives with
+op `wire`) succeeds: identity + the 14 fixed header bytes + 4 bytes per tag + the payload + whatever
+is left of the stream fit into the input, so the bytes a packet retains are bounded by the bytes its
+sender paid for (K = 1); the tag count is a 16-bit value (at most 256 KiB of tag slots whatever
+follows). An announced length is the chunk's `Limit`, never a pre-allocation. -/
+theorem packetUnmarshal_alloc (cf : Nat → Nat) {s s' : Codec.Stream} {p : Packet.Packet}
+    (h : Packet.unmarshal cf s = .ok (p, s')) :
+    Facts.idSize + 14 + 4 * p.tags.length + p.payload.length + s'.flatten.length ≤ s.flatten.length ∧
+    p.dev.length = Facts.idSize ∧ p.tags.length < 2^16 :=
+  Packet.unmarshal_alloc cf h
+
+/-- the payload handed on is exactly as long as announced; an announced length of 2^63 or more (which
+`int(p.len)` turns into a negative, i.e. absent, `Limit`) is only ever satisfied by an input that
+really is that long — a short hostile header ends in an error, not in a packet. -/
+theorem packetUnmarshal_len (cf : Nat → Nat) {len : Nat} {s s' : Codec.Stream} {pay : Bytes}
+    (h : Packet.readPayload cf len s = .ok (pay, s')) :
+    (len < 2^63 → pay.length = len) ∧ len + s'.flatten.length ≤ s.flatten.length := by
+  obtain ⟨h1, h2, h3⟩ := Packet.readPayload_len cf h
+  exact ⟨h3, by omega⟩
+
+/-- **Totality of the two read loops**: the fuel the model gives `readBody`'s loop and
+`Chunk.ReadFrom`'s loop is never what ends them — with any amount of extra fuel they return the same
+result, i.e. on every input they stop by their own exit conditions (a zero-byte read, the announced
+length reached, the limit reached, a write error) after at most one iteration per byte or piece of the
+input. -/
+theorem packetUnmarshal_loops_terminate (cf : Nat → Nat) (c : Chunk.Chunk) (hc : c.Inv) (s : Codec.Stream)
+    (t len k : Nat) :
+    Packet.bodyLoop cf (s.flatten.length + 2 + k) c s t len = Packet.bodyLoop cf (s.flatten.length + 2) c s t len ∧
+    Chunk.Chunk.readFromLoop cf (s.flatten.length + s.length + 1 + k) c s t =
+      Chunk.Chunk.readFromLoop cf (s.flatten.length + s.length + 1) c s t := by
+  induction k with
+  | zero => exact ⟨rfl, rfl⟩
+  | succ k ih =>
+    constructor
+    · rw [← ih.1, ← Nat.add_assoc]
+      exact Packet.bodyLoop_fuel cf _ c s t len hc (by omega)
+    · rw [← ih.2, ← Nat.add_assoc]
+      exact Chunk.Chunk.readFromLoop_fuel cf _ c s t (by omega)
+
+/-- non-vacuity: a 48-byte wire packet (no tags, one payload byte) decodes and the bound is tight;
+the same header announcing 2^63 bytes ("no limit") with one byte following ends in an error -/
+example : (Packet.unmarshal (fun n => n) [List.replicate 32 1 ++ [9, 0, 7, 0, 0, 0, 0, 0, 0, 0, 0, 0, 0, 1, 1, 0x2A]]).toOption.map
+    (fun r => (r.1.payload, r.1.tags, r.2.flatten)) = some ([0x2A], [], []) := by decide
+example : (Packet.unmarshal (fun n => n)
+    [List.replicate 32 1 ++ [9, 0, 7, 0, 0, 0, 0, 0, 0, 0, 0, 0, 0, 7, 0x80, 0, 0, 0, 0, 0, 0, 0, 0x2A]]).toOption.isNone = true := by
+  decide
 
 /-! ### the fragment dispatcher under a hostile peer (state across packets) -/
 
